@@ -4,8 +4,10 @@ import (
 	"bytes"
 	"fmt"
 	"io"
+	"math/bits"
 	"math/rand"
 	"strings"
+	"sync/atomic"
 	"testing"
 
 	"github.com/gogo/protobuf/proto"
@@ -13,6 +15,8 @@ import (
 	"github.com/ipfs/go-cid"
 	"github.com/ipfs/go-unixfsnode/data"
 	"github.com/ipfs/go-unixfsnode/data/builder"
+	"github.com/ipfs/go-unixfsnode/file"
+	"github.com/ipfs/go-unixfsnode/hamt"
 	dagpb "github.com/ipld/go-codec-dagpb"
 	"github.com/ipld/go-ipld-prime"
 	_ "github.com/ipld/go-ipld-prime/codec/dagcbor"
@@ -53,15 +57,15 @@ func (h *hostile) leaf() cid.Cid {
 	case 2:
 		// dag-cbor blocks of shapes a file/directory reader may stumble on
 		cb := [][]byte{
-			{0xa1, 0x65, 'L', 'i', 'n', 'k', 's', 0x05},                                     // {"Links": 5}
-			{0xa1, 0x65, 'L', 'i', 'n', 'k', 's', 0x80},                                     // {"Links": []}
+			{0xa1, 0x65, 'L', 'i', 'n', 'k', 's', 0x05},                                       // {"Links": 5}
+			{0xa1, 0x65, 'L', 'i', 'n', 'k', 's', 0x80},                                       // {"Links": []}
 			{0xa2, 0x64, 'D', 'a', 't', 'a', 0x41, 0x08, 0x65, 'L', 'i', 'n', 'k', 's', 0x80}, // {"Data": h'08', "Links": []}
-			{0x80},             // []
-			{0x43, 1, 2, 3},    // bytes
-			{0xa0},             // {}
+			{0x80},          // []
+			{0x43, 1, 2, 3}, // bytes
+			{0xa0},          // {}
 			{0xa1, 0x65, 'L', 'i', 'n', 'k', 's', 0x81, 0x01}, // {"Links": [1]}
 			{0xa1, 0x65, 'L', 'i', 'n', 'k', 's', 0x81, 0xa0}, // {"Links": [{}]}
-			{0xf6},             // null
+			{0xf6}, // null
 		}
 		return h.st.PutBlock(1, cid.DagCBOR, cb[h.r.Intn(len(cb))])
 	default:
@@ -298,7 +302,7 @@ func dagMeasure(st *store.Store, root cid.Cid) (paths, links int, payload int64)
 		}
 		out := m{p: 1}
 		raw, ok := st.Get(c)
-		if !ok || depth > 12 {
+		if !ok || depth > 300 {
 			return out
 		}
 		out.b = int64(len(raw))
@@ -308,6 +312,17 @@ func dagMeasure(st *store.Store, root cid.Cid) (paths, links int, payload int64)
 				out.p += ch.p
 				out.l += 1 + ch.l
 				out.b += ch.b
+				// stacked DAGs have astronomically many paths: saturate instead of overflowing
+				const sat = 1 << 40
+				if out.p > sat || out.p < 0 {
+					out.p = sat
+				}
+				if out.l > sat || out.l < 0 {
+					out.l = sat
+				}
+				if out.b > sat || out.b < 0 {
+					out.b = sat
+				}
 			}
 		}
 		memo[c.KeyString()] = out
@@ -329,14 +344,50 @@ func pbString(s string) dagpb.String {
 
 // exerciseNode drives every operation of a reified node, each under its own
 // recover and logical budget.
+type hookBudgetExceeded struct{}
+
 func exerciseNode(c *mon.Case, st *store.Store, how string, n ipld.Node, keys []string, paths, links int, payload int64) {
+	blocks := st.Len()
+	hookBudget := int64(64*blocks + 256)
+	exponential := paths > 200000 // stacked DAGs: iteration and reads are legitimately proportional to the number of paths
+	if exponential {
+		paths, links = blocks, blocks*1024
+	}
 	loadBudget := 64*(paths+links+4) + 200
 	nextBudget := 4*(links+paths) + 16
 	op := func(name string, f func()) {
 		st.ResetLog()
 		st.LoadBudget = loadBudget
 		c.Count("operations", 1)
-		c.Guard(how+"."+name, f)
+		// logical work budget on the memoisation hook sites: a correct reader passes them at most a
+		// few times per block of the DAG; exceeding the budget aborts the call from inside the hook
+		var events int64
+		exceeded := false
+		hook := func(string) {
+			if atomic.AddInt64(&events, 1) > hookBudget {
+				panic(hookBudgetExceeded{})
+			}
+		}
+		hamt.SetVerifHook(hook)
+		file.SetVerifHook(hook)
+		c.Guard(how+"."+name, func() {
+			defer func() {
+				if p := recover(); p != nil {
+					if _, ok := p.(hookBudgetExceeded); ok {
+						exceeded = true
+						return
+					}
+					panic(p)
+				}
+			}()
+			f()
+		})
+		hamt.SetVerifHook(nil)
+		file.SetVerifHook(nil)
+		c.Max("max_hook_events_per_op", atomic.LoadInt64(&events))
+		if exceeded {
+			c.Violation("C13|unbounded-work|"+name, "%s.%s passed the memoisation sites more than %d times for a DAG of %d blocks: work is not proportional to the data", how, name, hookBudget, blocks)
+		}
 		if st.BudgetExceeded {
 			c.Violation("C13|unbounded-loads|"+name, "%s.%s requested more than %d blocks from storage for a DAG with %d paths and %d links", how, name, loadBudget, paths, links)
 		}
@@ -366,37 +417,39 @@ func exerciseNode(c *mon.Case, st *store.Store, how string, n ipld.Node, keys []
 		i := i
 		op("LookupByIndex", func() { n.LookupByIndex(i) })
 	}
-	op("MapIterator", func() {
-		it := n.MapIterator()
-		if it == nil {
-			if n.Kind() == datamodel.Kind_Map {
-				c.Violation("C13|nil-iterator", "%s: MapIterator() is nil on a map-kind node", how)
-			}
-			return
-		}
-		steps := 0
-		for !it.Done() {
-			steps++
-			if steps > nextBudget {
-				c.Violation("C13|unbounded-iteration|MapIterator", "%s: MapIterator did not finish within %d Next calls (DAG has %d links over %d paths)", how, nextBudget, links, paths)
+	if !exponential {
+		op("MapIterator", func() {
+			it := n.MapIterator()
+			if it == nil {
+				if n.Kind() == datamodel.Kind_Map {
+					c.Violation("C13|nil-iterator", "%s: MapIterator() is nil on a map-kind node", how)
+				}
 				return
 			}
-			k, v, err := it.Next()
-			if err == nil {
-				if k == nil || v == nil {
-					c.Violation("C13|nil-value|MapIterator", "%s: MapIterator.Next returned a nil key or value without error", how)
+			steps := 0
+			for !it.Done() {
+				steps++
+				if steps > nextBudget {
+					c.Violation("C13|unbounded-iteration|MapIterator", "%s: MapIterator did not finish within %d Next calls (DAG has %d links over %d paths)", how, nextBudget, links, paths)
 					return
 				}
-				k.AsString()
-				v.AsLink()
-				v.Kind()
+				k, v, err := it.Next()
+				if err == nil {
+					if k == nil || v == nil {
+						c.Violation("C13|nil-value|MapIterator", "%s: MapIterator.Next returned a nil key or value without error", how)
+						return
+					}
+					k.AsString()
+					v.AsLink()
+					v.Kind()
+				}
 			}
-		}
-		it.Done()
-		it.Next() // over-read must be an error or a value, not a panic
-	})
+			it.Done()
+			it.Next() // over-read must be an error or a value, not a panic
+		})
+	}
 	type nativeIterable interface{ Iterator() *iterT }
-	if ni, ok := n.(nativeIterable); ok {
+	if ni, ok := n.(nativeIterable); ok && !exponential {
 		op("native.Iterator", func() {
 			it := ni.Iterator()
 			steps := 0
@@ -448,13 +501,21 @@ func exerciseNode(c *mon.Case, st *store.Store, how string, n ipld.Node, keys []
 		}{
 			{"Read", func(rs io.ReadSeeker) { rs.Read(make([]byte, 7)) }},
 			{"Seek(-5,Start)+Read", func(rs io.ReadSeeker) { rs.Seek(-5, io.SeekStart); rs.Read(make([]byte, 4)) }},
-			{"Seek(-1,Current)+Read", func(rs io.ReadSeeker) { rs.Read(make([]byte, 1)); rs.Seek(-3, io.SeekCurrent); rs.Read(make([]byte, 4)) }},
+			{"Seek(-1,Current)+Read", func(rs io.ReadSeeker) {
+				rs.Read(make([]byte, 1))
+				rs.Seek(-3, io.SeekCurrent)
+				rs.Read(make([]byte, 4))
+			}},
 			{"Seek(0,End)+Read", func(rs io.ReadSeeker) { rs.Seek(0, io.SeekEnd); rs.Read(make([]byte, 4)) }},
 			{"Seek(-2,End)+Read", func(rs io.ReadSeeker) { rs.Seek(-2, io.SeekEnd); rs.Read(make([]byte, 4)) }},
 			{"Seek(-1<<40,End)+Read", func(rs io.ReadSeeker) { rs.Seek(-(1 << 40), io.SeekEnd); rs.Read(make([]byte, 4)) }},
 			{"Seek(1<<40,Start)+Read", func(rs io.ReadSeeker) { rs.Seek(1<<40, io.SeekStart); rs.Read(make([]byte, 4)) }},
 			{"Seek(3,Start)+Read", func(rs io.ReadSeeker) { rs.Seek(3, io.SeekStart); rs.Read(make([]byte, 9)) }},
-			{"Seek(5,Start)+Seek(past)+Read", func(rs io.ReadSeeker) { rs.Seek(5, io.SeekStart); rs.Seek(50, io.SeekCurrent); rs.Read(make([]byte, 2)) }},
+			{"Seek(5,Start)+Seek(past)+Read", func(rs io.ReadSeeker) {
+				rs.Seek(5, io.SeekStart)
+				rs.Seek(50, io.SeekCurrent)
+				rs.Read(make([]byte, 2))
+			}},
 			{"Seek(whence=7)", func(rs io.ReadSeeker) { rs.Seek(1, 7); rs.Read(make([]byte, 2)) }},
 			{"Read(0)", func(rs io.ReadSeeker) { rs.Read(nil) }},
 			{"ReadAll", func(rs io.ReadSeeker) {
@@ -541,9 +602,36 @@ func exerciseDAG(c *mon.Case, st *store.Store, root cid.Cid, class string) {
 		var n ipld.Node
 		var rerr error
 		st.ResetLog()
-		st.LoadBudget = 64*(paths+links+4) + 200
+		st.LoadBudget = 64*(min(paths, 1<<20)+min(links, 1<<20)+4) + 200
 		c.Count("operations", 1)
-		ok := c.Guard(rf.name, func() { n, rerr = rf.f() })
+		var events int64
+		exceeded := false
+		hookBudget := int64(64*st.Len() + 256)
+		hook := func(string) {
+			if atomic.AddInt64(&events, 1) > hookBudget {
+				panic(hookBudgetExceeded{})
+			}
+		}
+		hamt.SetVerifHook(hook)
+		file.SetVerifHook(hook)
+		ok := c.Guard(rf.name, func() {
+			defer func() {
+				if p := recover(); p != nil {
+					if _, isB := p.(hookBudgetExceeded); isB {
+						exceeded = true
+						return
+					}
+					panic(p)
+				}
+			}()
+			n, rerr = rf.f()
+		})
+		hamt.SetVerifHook(nil)
+		file.SetVerifHook(nil)
+		if exceeded {
+			c.Violation("C13|unbounded-work|reify", "%s passed the memoisation sites more than %d times for a DAG of %d blocks: work is not proportional to the data", rf.name, hookBudget, st.Len())
+			continue
+		}
 		if st.BudgetExceeded {
 			c.Violation("C13|unbounded-loads|reify", "%s requested more than %d blocks for a DAG with %d paths", rf.name, st.LoadBudget, paths)
 		}
@@ -675,6 +763,75 @@ func TestC13(t *testing.T) {
 				}
 			}
 		})
+	}
+	// ---- (2b) stacked shards: every level links (many times) to the same child, deeper than the hash has bits ----
+	for _, f := range allFanouts {
+		for _, variant := range []string{"full-empty-bottom", "full-value-bottom", "two-links", "chain"} {
+			f, variant := f, variant
+			r.Case(fmt.Sprintf("stacked/f%d/%s", f, variant), map[string]any{"fanout": f, "variant": variant}, func(c *mon.Case) {
+				lg := bits.TrailingZeros(uint(f))
+				usable := 64 / lg
+				pad := oracle.PadLen(uint64(f))
+				for _, levels := range []int{2, usable - 1, usable, usable + 1, usable + 3} {
+					if variant == "full-empty-bottom" && levels > 6 {
+						levels = 6 // enough for fanout^levels to dwarf any budget
+					}
+					st := store.New()
+					t5 := pb.Data_HAMTShard
+					mkShard := func(bitfield []byte, links []pbLinkSpec) cid.Cid {
+						m := &pb.Data{Type: &t5, HashType: proto.Uint64(0x22), Fanout: proto.Uint64(uint64(f)), Data: bitfield}
+						return st.PutBlock(1, cid.DagProtobuf, encodePB(mustMarshal(m), true, links))
+					}
+					ones := bytes.Repeat([]byte{0xff}, f/8)
+					// bottom
+					var cur cid.Cid
+					leaf := st.PutBlock(1, cid.Raw, []byte("value"))
+					switch variant {
+					case "full-empty-bottom":
+						cur = mkShard(nil, nil)
+					default:
+						var ls []pbLinkSpec
+						for i := 0; i < f; i++ {
+							ls = append(ls, pbLinkSpec{Name: strp(fmt.Sprintf("%0*Xentry%d", pad, i, i)), Tsize: u64p(5), Cid: leaf})
+						}
+						cur = mkShard(ones, ls)
+					}
+					for l := 1; l < levels; l++ {
+						var ls []pbLinkSpec
+						bf := ones
+						switch variant {
+						case "two-links":
+							bf = make([]byte, f/8)
+							bf[len(bf)-1] = 0x03
+							ls = []pbLinkSpec{{Name: strp(fmt.Sprintf("%0*X", pad, 0)), Cid: cur, Tsize: u64p(1)}, {Name: strp(fmt.Sprintf("%0*X", pad, 1)), Cid: cur, Tsize: u64p(1)}}
+						case "chain":
+							bf = make([]byte, f/8)
+							bf[len(bf)-1] = 0x01
+							ls = []pbLinkSpec{{Name: strp(fmt.Sprintf("%0*X", pad, 0)), Cid: cur, Tsize: u64p(1)}}
+						default:
+							for i := 0; i < f; i++ {
+								ls = append(ls, pbLinkSpec{Name: strp(fmt.Sprintf("%0*X", pad, i)), Cid: cur, Tsize: u64p(1)})
+							}
+						}
+						cur = mkShard(bf, ls)
+					}
+					exerciseDAG(c, st, cur, "stacked|"+variant)
+					// keys whose hash walks slot 0 (or 0/1) at every level, so that lookups reach the bottom
+					ls := st.LinkSystem(true)
+					if raw, err := loadRaw(ls, cur); err == nil {
+						if n, err := reify(ls, raw); err == nil && n != nil {
+							var keys []string
+							for k := 0; k < 6; k++ {
+								keys = append(keys, gen.Craft16(uint64(k)&1<<uint(63-k*lg%60), c.Rand().Uint64()), gen.Craft16(0, c.Rand().Uint64()), gen.Craft16(c.Rand().Uint64()>>uint(lg*(levels%usable+1)%63), c.Rand().Uint64()))
+							}
+							paths, links, payload := dagMeasure(st, cur)
+							exerciseNode(c, st, "stacked-crafted-keys", n, keys, paths, links, payload)
+						}
+					}
+					c.Sig(fmt.Sprintf("stacked|f%d|%s|levels%d", f, variant, levels), true)
+				}
+			})
+		}
 	}
 	// ---- (3) well-formed DAGs with one or two corruptions ----
 	nm := r.Pick(400, 20000)
